@@ -115,6 +115,8 @@ def symeig(A: LinearOperator, neig: Optional[int] = None,
     mode = mode.lower()
     if mode == "uppermost":
         mode = "uppest"
+    if isinstance(method, str):
+        method = method.lower()  # method names are case-insensitive
     if method is None:
         if isinstance(A, MatrixLinearOperator) and \
            (M is None or isinstance(M, MatrixLinearOperator)):
